@@ -249,7 +249,7 @@ func main() {
 		}
 	}
 
-	for i, n := 0, rep.Pick(8000, 400000); i < n; i++ {
+	for i, n := 0, rep.Pick(8000, 300000); i < n; i++ {
 		add(job{phase: "topology"})
 	}
 
